@@ -360,8 +360,10 @@ class Verdict:
               'level': self.level, 'coverage': cov,
               'assumptions': self.assumptions, 'wall_s': round(wall, 2),
               'violations': len(self.violations)}
-        EVID.mkdir(exist_ok=True)
-        (EVID / f'{self.pid}.json').write_text(
+        # checks beyond the listed properties (ids X..) keep their evidence apart
+        evdir = EVID / 'extra' if self.pid.startswith('X') else EVID
+        evdir.mkdir(exist_ok=True, parents=True)
+        (evdir / f'{self.pid}.json').write_text(
             json.dumps(ev, ensure_ascii=False, indent=1, default=str))
         print(f'{self.pid} [{self.tier}] '
               f'{"VIOLATED" if self.violations else "held"}: '
